@@ -76,7 +76,7 @@ package pointindex
 //@   loop l isolated
 //@     invariant l <= ix.deepestLevel + 1 && wfIndex(ix)
 //@     invariant 0 <= deepestX && deepestX < ix.deepestSize && 0 <= deepestY && deepestY < ix.deepestSize
-//@     invariant gridInv(ix) using stepassert(2); stepassert(4)
+//@     invariant gridInv(ix) using only; inv(3); stepassert(2); stepassert(4)
 //@     invariant parentClosed(ix) using stepassert(1); stepassert(2); stepassert(3)
 //@     invariant forall(j Int, 0 <= j && j < l ==> storedQ(ix, j, interleave(kx(ix, deepestX, j), kx(ix, deepestY, j))), trigger(hasKey(ix.quadrants, j))) using only; inv(5); stepassert(1); stepassert(2); stepassert(5)
 //@     invariant forall(l2 Int, z2 Int, old(storedQ(ix, l2, z2)) ==> storedQ(ix, l2, z2), trigger(storedK(ix, l2, z2))) using stepassert(5)
@@ -113,11 +113,12 @@ package pointindex
 //@   proves forall(l Int, z Int, 1 <= l && l <= ix.deepestLevel && storedQ(ix, l, z) ==> quadOf(ix, l, z).intExtent[3] == childExt(quadOf(ix, l - 1, z / 4), z % 2, (z / 2) % 2)[3], trigger(storedK(ix, l, z)))
 //@   proves forall(l Int, z Int, 1 <= l && l <= ix.deepestLevel && storedQ(ix, l, z) ==> quadOf(ix, l, z).intExtent == childExt(quadOf(ix, l - 1, z / 4), z % 2, (z / 2) % 2), trigger(storedK(ix, l, z))) using only; post(10); post(11); post(12); post(13)
 //@   proves linkInv(ix) using post(9); post(14)
-//@   proves roundGrid(ix) ==> quadOf(ix, 0, 0) == ix.Quadrant
+//@   proves storedQ(ix, 0, 0)
+//@   proves roundGrid(ix) ==> quadOf(ix, 0, 0) == ix.Quadrant using only; post(1); post(2); post(16); zero_key(0); roundtrip(0, 0); pow2_zero(0); tm_zero_one(even_bits(0), pixSpan(ix, 0)); tm_zero_one(even_bits(0 >> 1), pixSpan(ix, 0))
 //@   proves ix.deepestLevel <= 32 && !isNil(ix.quadrants) && extentOK(ix.intExtent)
-//@   ensures[C02,C03,C08,C09,C05,C06] indexInv0(ix) using only; post(8); post(15); post(17)
+//@   ensures[C02,C03,C08,C09,C05,C06] indexInv0(ix) using only; post(8); post(15); post(18)
 //@   ensures[C02,C03,C08,C09,C05,C06] storedQ(ix, 0, 0)
-//@   ensures[C02,C03,C08,C09,C05,C06] roundGrid(ix) ==> indexInv(ix) using only; post(16); post(18); post(19)
+//@   ensures[C02,C03,C08,C09,C05,C06] roundGrid(ix) ==> indexInv(ix) using only; post(17); post(19); post(20)
 // C06 (the "no points found" guard): the pixel of the inserted coordinate is stored on every level, and nothing that
 // was stored is lost
 //@   ensures[C06,C02] coordCovered(ix, deepestX, deepestY)
@@ -257,8 +258,8 @@ package pointindex
 //@ macro coordOK(pt) = 0 - 800000000 < pt[0] && pt[0] < 800000000 && 0 - 800000000 < pt[1] && pt[1] < 800000000
 //@ macro inGridF(ix, pt) = inGrid(ix, trunc(pt[0] * 10000000000), trunc(pt[1] * 10000000000))
 //@ macro allCoordsOK(polygon) = forall(a, 0, len(polygon), forall(b, 0, len(polygon[a]), coordOK(polygon[a][b])))
-//@ macro allCovered(ix, polygon) = forall(a, 0, len(polygon), forall(b, 0, len(polygon[a]), ptCovered(ix, polygon[a][b])))
-//@ macro allInGrid(ix, polygon) = forall(a, 0, len(polygon), forall(b, 0, len(polygon[a]), inGridF(ix, polygon[a][b])))
+//@ macro allCovered(ix, polygon) = forall(a Int, b Int, 0 <= a && a < len(polygon) && 0 <= b && b < len(polygon[a]) ==> ptCovered(ix, polygon[a][b]), trigger(polygon[a][b]))
+//@ macro allInGrid(ix, polygon) = forall(a Int, b Int, 0 <= a && a < len(polygon) && 0 <= b && b < len(polygon[a]) ==> inGridF(ix, polygon[a][b]), trigger(polygon[a][b]))
 
 // C09: InsertPolygon succeeds exactly when every vertex of every ring lies in the half-open grid.
 // The first loop only sums ring lengths into a capacity hint for make(map, n) and is not verified (havoc).
@@ -270,8 +271,13 @@ package pointindex
 //@   requires idxOK(ix) && allCoordsOK(polygon)
 //@   modifies ix.quadrants
 //@   loop ring havoc
-//@   loop level
-//@     invariant level <= ix.deepestLevel + 1 && idxOK(ix)
+//@   loop level isolated
+//@     invariant level <= ix.deepestLevel + 1 && wfIndex(ix) && ix.deepestLevel <= 32 && !isNil(ix.quadrants) && extentOK(ix.intExtent)
+//@     invariant entryInv(ix) using only; inv(2); stepassert(1)
+//@     invariant linkInv(ix) using only; inv(3); stepassert(1)
+//@     invariant indexGrid(ix) using only; inv(4); stepassert(1)
+//@     invariant[C06,C02] forall(l2 Int, z2 Int, old(storedQ(ix, l2, z2)) ==> storedQ(ix, l2, z2), trigger(storedK(ix, l2, z2))) using only; inv(5); stepassert(1)
+//@     stepassert forall(l2 Int, z2 Int, storedQ(ix, l2, z2) == athead(storedQ(ix, l2, z2)) && (storedQ(ix, l2, z2) ==> quadOf(ix, l2, z2) == athead(quadOf(ix, l2, z2))), trigger(storedK(ix, l2, z2)))
 //@     decreases ix.deepestLevel + 1 - level
 //@   loop ring#2 as r
 //@     invariant 0 - 1 <= r && r < len(polygon) && idxOK(ix)
